@@ -51,19 +51,21 @@ class IcDUT(Module):
 
 class WbIcHarness(Harness):
     """env = (masters, slaves, owners, ages)
-         masters[m] = (phase, target, we, tag, others_done)   phase: 'I' idle, 'R' requesting, 'T' just terminated
+         masters[m] = (phase, target, we, tag, others_done)   phase: 'I' idle, 'R' requesting, 'T' just terminated,
+                      'P' paused: cyc kept, stb low, address lines still pointing at `target` (capability stb_pauses)
          slaves[j]  = (lat, dead)
          owners[j]  = master owning slave port j's open cycle or -1
          ages[m]    = cycles the request of m has been on the arbitrated bus without termination (time-out runs)"""
 
     def __init__(self, name, kind, nm, ns, register=False, timeout=None, maxlat=2, unmapped=True, err=True, faults=False,
-                 back_to_back=True, decoded=True, cap=None):
+                 back_to_back=True, decoded=True, cap=None, pauses=False):
         self.name, self.kind, self.nm, self.ns = name, kind, nm, ns
         self.register, self.timeout, self.maxlat = register, timeout, maxlat
         self.unmapped, self.err, self.fault_sw, self.b2b = unmapped, err, faults, back_to_back
         self.decoded = kind in ("shared", "crossbar", "decoder")
         self.has_timeout = timeout is not None and kind in ("shared", "timeout")
         self.minlat = 1 if register else 0
+        self.pauses = pauses               # masters may keep cyc with stb low between the transfers of one bus cycle
         if cap:
             self.cap = cap
         q = [("live.deadlock", COOP, PROGRESS, (), "masters request, slaves answer, nothing completes")]
@@ -98,10 +100,14 @@ class WbIcHarness(Harness):
         for m, (ph, tg, we, tag, od) in enumerate(masters):
             if ph == "R":
                 per.append([("hold",)])
+            elif ph == "P":
+                per.append([("idle",), ("pause",)] + [("req", tg, w) for w in (0, 1)])
             else:
                 c = [("idle",)]
                 if ph == "I" or self.b2b:
                     c += [("req", t, w) for t in self.targets for w in (0, 1)]
+                if ph == "T" and self.pauses:
+                    c.append(("pause",))
                 per.append(c)
         out = []
         for mc in itertools.product(*per):
@@ -146,7 +152,12 @@ class WbIcHarness(Harness):
         mc, sc, kill = ch
         for m, X in enumerate(self.M):
             r = self.req_of(env, ch, m)
-            if r is None:
+            if r is None and mc[m][0] == "pause":
+                # wait state inside a bus cycle: cyc stays, stb low, the address still selects the slave of the last transfer
+                tgp = env[0][m][1]
+                v[X["cyc"]], v[X["stb"]] = 1, 0
+                v[X["adr"]], v[X["we"]], v[X["dat_w"]], v[X["sel"]] = (tgp << 4) | (m << 1), 1, 0xFF, 1
+            elif r is None:
                 v[X["cyc"]] = v[X["stb"]] = 0
                 # idle garbage on the request lines
                 v[X["adr"]], v[X["we"]], v[X["dat_w"]], v[X["sel"]] = (1 << AW) - 1, 1, 0xFF, 1
@@ -201,8 +212,17 @@ class WbIcHarness(Harness):
                 shown.append(-1)
                 if cyc and self.decoded:
                     # cyc alone: a bus cycle addressed to this slave must belong to a master with an open cycle for it
-                    if not any(r is not None and r[0] == j for r in reqs):
+                    if not any(r is not None and r[0] == j for r in reqs) and not any(mc[m][0] == "pause" and masters[m][1] == j for m in range(self.nm)):
                         return env, ("route.cyc", f"slave {j} sees cyc although no master addresses it"), 0
+        # a paused master (cyc kept, stb low) still owns what it owned: nobody else may be served there meanwhile
+        for m in range(self.nm):
+            if mc[m][0] == "pause":
+                tgp = masters[m][1]
+                ports = range(self.ns) if self.kind in ("shared", "arbiter") else ([tgp] if tgp < self.ns else [])
+                for j in ports:
+                    if shown[j] >= 0 and shown[j] != m:
+                        return env, ("own.stolen_in_pause", f"master {m} keeps cyc (stb low between two transfers) but slave port {j} serves master {shown[j]}"), 0
+                self.cov["pauses"] = self.cov.get("pauses", 0) + 1
         # ownership
         owners2 = list(owners)
         for j in range(self.ns):
@@ -271,9 +291,13 @@ class WbIcHarness(Harness):
             r = reqs[m]
             c = mc[m]
             if r is None:
-                masters2.append(("I", 0, 0, tag, 0))
+                if c[0] == "pause":
+                    masters2.append(("P", tg, 0, tag, 0))
+                    coop = False                   # holds the bus without using it
+                else:
+                    masters2.append(("I", 0, 0, tag, 0))
                 continue
-            if ph == "T" and c[0] == "req":
+            if ph in ("T", "P") and c[0] == "req":
                 coop = False                       # keeps cyc across transfers: owns the bus by Wishbone's rules
                 self.cov["back_to_back"] += 1
                 # the bus cycle (cyc period) continues: the master must still own what it owned
